@@ -21,7 +21,7 @@ RULE = ("Requests over generated schemas: valid operations, the same truncated a
         "extensions; data absent iff the reference parser rejects the text or validation reports errors; every error "
         "path points at a null in data; for executed valid requests the error-path multiset equals the reference "
         "executor's (one error per faulted position). Non-trivial: the request fails at some stage or hits a fault; "
-        "distinct = (schema, text, variables, operation_name, world, entry).")
+        "distinct = (schema, text, variables, operation_name, world, entry). Thorough tier adds a coverage-guided atheris/libFuzzer campaign per shard (py_gql instrumented, libFuzzer seed derived from VERIF_SEED, GraphQL token dictionary, seeded corpus on even shards and empty corpus on odd ones, inputs <= 160 bytes; findings are counted and kept, never fatal, so the campaign goes on) with the same oracle inside the target; its executions are part of `evaluations`, its distinct non-trivial inputs part of `distinct_nontrivial`.")
 ASSUMPTIONS = [
     "Lines are counted on LF only when checking that a location lies inside the text.",
     "A resolver returning a non-finite float returns a value outside the declared type: the request may fail with the library's "
@@ -263,6 +263,54 @@ def shard(ctx):
             ctx.violation(sig, d, c)
 
     run()
+
+
+def _f(name, type_, args=()):
+    return {"name": name, "type": type_, "args": [dict(a) for a in args], "desc": None, "deprecated": None}
+
+
+FUZZ_SPEC = {
+    "types": {
+        "E": {"kind": "enum", "name": "E", "desc": None, "values": [{"name": "A", "value": "A", "desc": None, "deprecated": None},
+                                                                      {"name": "B", "value": "B", "desc": None, "deprecated": None}]},
+        "In": {"kind": "input", "name": "In", "desc": None, "fields": [{"name": "k", "type": "Int", "desc": None}, {"name": "e", "type": "E", "desc": None}]},
+        "I": {"kind": "interface", "name": "I", "desc": None, "fields": [_f("id", "ID!")]},
+        "O": {"kind": "object", "name": "O", "interfaces": ["I"], "desc": None,
+              "fields": [_f("id", "ID!"), _f("n", "Int!"), _f("o", "O"), _f("os", "[O!]"), _f("f", "Float", [{"name": "x", "type": "Float", "desc": None}])]},
+        "P": {"kind": "object", "name": "P", "interfaces": ["I"], "desc": None, "fields": [_f("id", "ID!"), _f("s", "String")]},
+        "U": {"kind": "union", "name": "U", "desc": None, "members": ["O", "P"]},
+        "Query": {"kind": "object", "name": "Query", "interfaces": [], "desc": None,
+                  "fields": [_f("a", "Int"), _f("o", "O"), _f("is", "[I]"), _f("u", "U"),
+                             _f("f", "String", [{"name": "x", "type": "Int", "desc": None}, {"name": "i", "type": "In", "desc": None},
+                                                {"name": "l", "type": "[E!]", "desc": None}])]},
+        "Mutation": {"kind": "object", "name": "Mutation", "interfaces": [], "desc": None, "fields": [_f("m", "O", [{"name": "n", "type": "Int!", "desc": None}])]},
+    },
+    "order": ["E", "In", "I", "O", "P", "U", "Query", "Mutation"], "directives": [], "query": "Query", "mutation": "Mutation", "subscription": None,
+}
+FUZZ_SEEDS = ["{ a }", "query Q($v: Int = 1) { f(x: $v, i: {k: 1, e: A}, l: [A, B]) o { id n os { n } } }",
+              "{ is { id ... on O { n f(x: 1.5) } ... on P { s } } u { __typename ...F } } fragment F on P { s }",
+              "mutation { m(n: 1) { id } x: m(n: 2) { o { n } } }", "{ o { o { o { n @skip(if: true) id @include(if: false) } } } }"]
+_FUZZ = {}
+
+
+def fuzz_one(text):
+    """target of the coverage-guided phase: a raw request text against a fixed schema through the top-level entry point"""
+    if not _FUZZ:
+        _FUZZ["schema"], _FUZZ["eff"] = H.make_schema(GS.Spec(json.loads(json.dumps(FUZZ_SPEC))), "sdl")
+    r = {"text": text, "variables": {"v": 2}, "operation_name": None, "kind": "fuzz", "entry": ENTRIES[0],
+         "world": {"salt": 5, "p_err": 4, "p_null": 5, "p_null_item": 3}}
+    vios, stage = check_request(_FUZZ["schema"], _FUZZ["eff"], None, r, r["entry"])
+    toks = R.ref_tokens(text)
+    key = (stage, tuple(t[0] if t[0] != "Name" else t[1] for t in toks)) if toks and len(toks) >= 4 and stage != "success" else None
+    return vios, key, {"spec": FUZZ_SPEC, "mode": "sdl", "requests": [r]}
+
+
+def _atheris(ctx):
+    from vlib.fuzz.phase import atheris_phase
+    return atheris_phase("C10", 60000, FUZZ_SEEDS)(ctx)
+
+
+extra_phases = [("atheris", _atheris)]
 
 
 def replay(case):
